@@ -5,7 +5,7 @@ C02 — the property itself, over the plain history of operations (no fork table
      * while t was enabled (started and not since stopped/deleted), under the definition it was started with,
      * to a (database, retention policy) that definition declares (a write without rp goes to the default rp),
      * and that from-node #i selects (every database / retentionPolicy / measurement it names equals the point's, and its
-       where-predicate, if any, holds),
+       where-predicate, if any, holds — and likewise for every from-node it is chained under),
   each such point ONCE, in the order written.
 
 Operations on other tasks do not occur in this definition at all (`enabledAfter` ignores them): that is the frame part of the property.
@@ -23,6 +23,19 @@ def selects (f : From) (db rp : String) (p : RawPoint) : Bool :=
   (match f.wh with
    | none => true
    | some k => p.pass.contains k)
+
+/-- Does from-node #`i` select the point? It must itself select it and so must every from-node it is chained under
+(`stream|from()…|from()…`). `fuel` bounds the walk up (parents precede children). -/
+def selectedBy (froms : List From) : Nat → Nat → String → String → RawPoint → Bool
+  | 0, _, _, _, _ => false
+  | fuel + 1, i, db, rp, p =>
+    match froms[i]? with
+    | none => false
+    | some f =>
+      selects f db rp p &&
+      (match f.parent with
+       | none => true
+       | some j => selectedBy froms fuel j db rp p)
 
 /-- Under which definition is `t` enabled after one more operation (`none` = not enabled)?
 A task that declares no database/retention policy cannot be enabled; a task that is enabled cannot be enabled again. -/
@@ -56,10 +69,7 @@ def qualifies (i : Nat) (w : WEv) : Bool :=
   match w.enabled with
   | none => false
   | some d =>
-    decide ((w.db, w.rp) ∈ d.dbrps) &&
-    (match d.froms[i]? with
-     | some f => selects f w.db w.rp w.pt
-     | none => false)
+    decide ((w.db, w.rp) ∈ d.dbrps) && selectedBy d.froms (i + 1) i w.db w.rp w.pt
 
 /-- **The specification**: what from-node #`i` of task `t` must have received after `ops`. -/
 def specDelivered (defaultRP t : String) (i : Nat) (ops : List Op) : List Nat :=
